@@ -44,6 +44,8 @@ def as_container(vals, kind):
         return np.array([int(v) for v in vals], dtype=np.int64)
     if kind == "list":
         return [float(v) for v in vals]
+    if kind == "float32" and all(float(np.float32(v)) == float(v) for v in vals):
+        return np.array(vals, dtype=np.float32)       # single-precision input holding exactly these numbers
     if kind == "strided":
         # a non-contiguous view (a column of an (n, 2) table, every second element of a longer array): the same numbers
         big = np.empty(2 * len(vals), dtype=float)
@@ -213,6 +215,13 @@ def poly_kind(coef, kind):
     if kind == "math":
         import math
         return lambda v: f(math.fsum([v]))
+    if kind == "augassign":
+        # a callable that adjusts its own parameter with an augmented assignment — harmless on the scalar it is documented to get,
+        # an in-place write if it is handed the library's (or the caller's) array
+        def g(v):
+            v -= 1.0
+            return f(v + 1.0)
+        return g
     return f
 
 
@@ -243,7 +252,9 @@ class TrendUnit(Unit):
             if rng.random() < 0.3:
                 c["coef2"] = rng.choice(POLYS)
             c["container"] = pick_container(rng)
-            c["fn_kind"] = rng.choice(["array", "array", "scalar_only", "branching", "math"])
+            if rng.random() < 0.15:
+                c["container"] = "float32"      # (trend converts its input to double precision: single-precision arrays holding these numbers exactly)
+            c["fn_kind"] = rng.choice(["array", "array", "scalar_only", "branching", "math", "augassign"])
             cases.append(c)
         return cases
 
@@ -517,6 +528,8 @@ class InterpUnit(Unit):
             c = {"x": x, "y": y, "new_x": sorted(nx), "method": method}
             if method == "constant" and rng.random() < 0.3:
                 c["left"] = gens.dyadic(rng, -8, 8, 2)
+            elif method == "constant" and rng.random() < 0.4:
+                c["left_none_explicit"] = True
             if rng.random() < 0.15:
                 c["new_x"] = list(x)  # at the nodes
             if rng.random() < 0.1:
@@ -540,6 +553,8 @@ class InterpUnit(Unit):
         kw = {}
         if "left" in c:
             kw["left"] = c["left"]
+        elif c.get("left_none_explicit"):
+            kw["left"] = None          # the documented default handed in explicitly (a wrapper forwarding its own left=None)
         gk = c.get("grid_kind", "float")
         grid = (np.array(c["new_x"], dtype=np.int64) if gk == "int64" else [int(v) for v in c["new_x"]] if gk == "intlist"
                 else list(c["new_x"]) if gk == "floatlist" else np.array(c["new_x"], dtype=float))
